@@ -1,4 +1,4 @@
-import TLVerif.Packet.ConnLemmas
+import TLVerif.Packet.ToyEnv
 /-!
 # C35 — Packet stream framing round-trips and detects corruption
 
@@ -82,6 +82,92 @@ than the 12 constant padding bytes), and the logical plaintext stream grows by e
 theorem writer_total (e : Env) (w : WState) (ss : List Step) (hok : StepsOK e w ss) (hi : EInv w) :
     runW e (flat ss) w = some (wSteps e w ss) ∧ (wSteps e w ss).L = w.L ++ stepsBytes e w ss :=
   ⟨(runW_steps e w ss hok hi).1, (runW_steps e w ss hok hi).2.1⟩
+
+/-- **accepted_packet_has_valid_crc_and_seq.** Whatever the reader accepts from a (decrypted) stream is, after at
+most three crypto padding words (none before the first packet), byte for byte the writer's frame for the delivered
+type and body in the reader's current state: length word = body length + overhead, sequence word = the expected
+sequence number, CRC (current table) of header and body, zero alignment; followed by the unread rest. Conversely
+(`frame_accepted`) every such frame is accepted. -/
+theorem accepted_packet_has_valid_crc_and_seq (e : Env) (st : RState) (t : Bytes) (ev : Ev) (st1 : RState) (rest : Bytes)
+    (hr : readPacket (pureSrc e) e st t = .ok (ev, st1, rest)) :
+    ∃ j tip body, j ≤ 3 ∧ (st.n = 0 → j = 0) ∧
+      t = padWords j ++ (le32 (body.length + packetOverhead) ++ le32 (seqWord st.n) ++ le32 tip ++ body ++
+            le32 (e.crc st.mode (le32 (body.length + packetOverhead) ++ le32 (seqWord st.n) ++ le32 tip ++ body)) ++
+            zeros (alignOf st.mode body.length) ++ rest) ∧
+      ev = evOf tip body ∧ st1 = { st with n := st.n + 1 } ∧ PktOK st tip body := by
+  obtain ⟨j, tip, body, h1, h2, h3, h4, h5, h6⟩ := readPacket_accepts e st t ev st1 rest hr
+  exact ⟨j, tip, body, h1, h2, by rw [h3]; simp [frame, header, List.append_assoc], h4, h5, h6⟩
+
+/-- the converse: a frame for an admissible packet is accepted and delivered exactly -/
+theorem frame_accepted (e : Env) (st : RState) (j tip : Nat) (body rest : Bytes) (h : PktOK st tip body)
+    (hj : j ≤ 3) (hj0 : st.n = 0 → j = 0) :
+    readPacket (pureSrc e) e st (padWords j ++ (frame e st.mode st.n tip body ++ rest)) =
+      .ok (evOf tip body, { st with n := st.n + 1 }, rest) :=
+  readPacket_frame e st j tip body rest h hj hj0
+
+/-- A frame with any single byte after the length word changed is never accepted (at the level of the decrypted
+stream, both modes), provided the checksum detects single-byte changes. -/
+theorem flipped_frame_rejected (e : Env) (hc : e.CrcDetects) (st : RState) (tip : Nat) (body rest : Bytes) (i : Nat)
+    (y : UInt8) (hlen : body.length ≤ maxPacketLen - packetOverhead) (hi4 : 4 ≤ i)
+    (hi : i < (frame e st.mode st.n tip body).length) (hy : y ≠ (frame e st.mode st.n tip body)[i]) :
+    ∃ er, readPacket (pureSrc e) e st ((frame e st.mode st.n tip body).set i y ++ rest) = .error er :=
+  flip_rejected e hc st tip body rest i y hlen hi4 hi hy
+
+/-- **corrupt_detected_partial.** Unencrypted history `A ++ s :: B` (not starting at the very first packet of the
+connection unless `A` is non-empty); on the wire, one byte of the frame of `s` outside its length word is changed.
+Then for EVERY segmentation of the corrupted bytes the reader delivers exactly the packets of `A`, intact and in
+order, and stops with an error at the corrupted packet. Hypothesis: the checksum detects single-byte changes.
+
+Full-strength statement (NOT a theorem, see `corrupt_detected_full`): the same for a change in the length word,
+and for any changed ciphertext byte of an AES-CBC stream. There the reader compares a CRC over a different span /
+over a garbled block, and acceptance is not excluded by any property of CRC-32: it is detected with probability
+1 - 2^-32 only. Explored by the correspondence run, not proved. -/
+theorem corrupt_detected_partial (e : Env) (hc : e.CrcDetects) (n0 : Nat) (m0 : Mode) (hm0 : m0.enc = false)
+    (A : List Step) (s : Step) (B : List Step)
+    (hok : StepsOK e (freshW n0 m0) (A ++ s :: B)) (hne : NoEncSteps (A ++ s :: B)) (hpos : n0 + A.length ≠ 0)
+    (i : Nat) (y : UInt8) (hi4 : 4 ≤ i)
+    (hi : i < (frame e (wModes (wSteps e (freshW n0 m0) A) s.modes).mode (wSteps e (freshW n0 m0) A).n s.tip s.body).length)
+    (hy : y ≠ (frame e (wModes (wSteps e (freshW n0 m0) A) s.modes).mode (wSteps e (freshW n0 m0) A).n s.tip s.body)[i]) :
+    ∃ wf, finalW e (flat (A ++ s :: B)) (freshW n0 m0) = some wf ∧
+      ∃ er, ∀ (cs : List Bytes) (f : Nat),
+        cs.flatten = (wf.wire e).set ((stepsBytes e (freshW n0 m0) A).length + i) y →
+        readLoop (chunkSrc e) e (schedOfOps e (flat (A ++ s :: B)) (freshW n0 m0)) (A.length + (f + 1)) ⟨n0, m0⟩
+            { chunks := cs } = (A.map stepEv, some er) :=
+  corrupt_detected_chunks e hc n0 m0 hm0 A s B hok hne hpos i y hi4 hi hy
+
+/-- The full-strength corruption statement, kept visible: every single-byte change of the wire after the handshake,
+in any mode, is reported as an error. It is *not* provable from `CrcDetects` (length word, CBC ciphertext). -/
+def corrupt_detected_full (e : Env) : Prop :=
+  ∀ (ops : List Op) (n0 : Nat) (m0 : Mode) (wf : WState) (k : Nat) (y : UInt8) (cs : List Bytes) (fuel : Nat),
+    2 ≤ n0 → finalW e ops (freshW n0 m0) = some wf → (hk : k < (wf.wire e).length) → y ≠ (wf.wire e)[k] →
+    cs.flatten = (wf.wire e).set k y →
+    (readLoop (chunkSrc e) e (schedOfOps e ops (freshW n0 m0)) fuel ⟨n0, m0⟩ { chunks := cs }).2 ≠ some .eof
+
+/-! ### the hypotheses are satisfiable -/
+
+/-- an environment with a block cipher law and a single-byte-detecting checksum exists -/
+example : toyEnv.CipherOK ∧ toyEnv.CrcDetects := ⟨toy_cipher, toy_crc⟩
+
+/-- a handshake-shaped history: nonce in the clear, then protocol 1 + AES on + handshake packet + CRC32-C,
+then two data packets (one not flushed, one odd-sized) -/
+def exampleKey : Bytes := List.replicate 32 7
+def exampleIv : Bytes := List.replicate 16 9
+def examplePre : List Step := [{ tip := packetTypeRPCNonce, body := [1, 2, 3, 4] }]
+def exampleEnc : EncStep :=
+  { ms1 := [.setProto 1], key := exampleKey, iv := exampleIv, ms2 := [], tip := packetTypeRPCHandshake, body := [5, 6, 7, 8, 9] }
+def examplePost : List Step :=
+  [{ modes := [.setCrcC], flush := false, tip := 77, body := [1, 2, 3] }, { tip := 78, body := [], extra := 2 }]
+
+example : StepsOK toyEnv (freshW 0 {}) (examplePre ++ exampleEnc.step :: examplePost) ∧
+    NoEncSteps examplePre ∧ NoEnc exampleEnc.ms1 ∧ NoEnc exampleEnc.ms2 ∧ NoEncSteps examplePost := by
+  refine ⟨?_, ?_, ?_, ?_, ?_⟩
+  · simp only [examplePre, examplePost, exampleEnc, EncStep.step, List.cons_append, List.nil_append, StepsOK, ModesOK,
+      ModeOK, and_true, true_and]
+    decide
+  · simp [NoEncSteps, NoEnc, examplePre]
+  · simp [NoEnc, exampleEnc, ModeOp.isEnc]
+  · simp [NoEnc, exampleEnc]
+  · simp [NoEncSteps, NoEnc, examplePost, ModeOp.isEnc]
 
 /-- 32-bit words survive serialisation. -/
 theorem word_roundtrip (n : Nat) (rest : Bytes) : word (le32 n ++ rest) = n % 4294967296 :=
